@@ -28,7 +28,7 @@ def plan(tier):
             "required_classes": ["criteria:fixed", "criteria:threshold", "criteria:both", "per-bond-limits",
                                  "temp_m_trunc:scalar", "temp_m_trunc:list", "degenerate-spectrum", "rank-below-limit",
                                  "threshold>=0.5", "threshold:next-to-a-singular-value", "both:limit-binds", "both:threshold-binds",
-                                 "both:count-depends-on-the-normalisation", "config-object", "sweep:to_right", "sweep:to_left", "ret_s", "sector:zero-with-signed-labels"],
+                                 "both:count-depends-on-the-normalisation", "config-object", "sweep:to_right", "sweep:to_left", "ret_s", "sector:zero-with-signed-labels", "amplitude:tiny", "amplitude:huge"],
             "required_counters": {"oracle": 300, "bounds_checked": 200, "kept_counts_checked": 100}}
     if tier == "quick":
         base.update({"ncases": 640, "min_nontrivial": 60})
@@ -206,6 +206,12 @@ def run_case(ctx):
         mps.scale(1.0 / nrm, inplace=True)
     if rng.random() < 0.2:
         mps.coeff = mps.coeff * float(rng.choice([2.0, 0.3]))
+    if ctx.idx % 10 == 3:
+        # other units: the tensors themselves (not the prefactor) tiny or huge, every singular value far below / above unity;
+        # truncation is defined relative to the spectrum, so nothing may depend on the absolute scale
+        g = [1e-9, 1e-12, 1e7][(ctx.idx // 10) % 3]
+        mps.scale(g, inplace=True)
+        ctx.cls("amplitude:tiny" if g < 1 else "amplitude:huge")
     sweep_to_right = bool(mps.to_right)
     ctx.cls("sweep:to_right" if sweep_to_right else "sweep:to_left")
     psi = states.dense_of(mps)
